@@ -58,7 +58,8 @@ Modes(c) == 0..(c.order - 1)
 \* "the last mode cannot be fixed" is documented (and warned about) for these algorithms
 LastModeExempt(c) == c.alg \in {"parafac", "nn_parafac", "constrained_parafac", "nn_tucker_hals"}
 FixedEff(c) == IF LastModeExempt(c) THEN c.fixed \ {c.order - 1} ELSE c.fixed
-AllFixedShortCircuit(c) == c.alg = "parafac" /\ c.fixed = Modes(c)
+\* with every mode fixed nothing is swept: the initialisation is returned (parafac, HALS non-negative CP, Tucker)
+AllFixedShortCircuit(c) == c.alg \in {"parafac", "nn_parafac_hals", "tucker"} /\ c.fixed = Modes(c)
 
 \* two runs that differ only in the cap are prefixes of each other
 PrefixStable(c) ==
